@@ -64,3 +64,16 @@ def build_history_corpus(profile, seeds, n_bundles, workdir, nshards=16, **kw):
   t0 = time.time()
   run_workers("corpus_worker.py", args)
   return [a["out"] for a in args], time.time() - t0
+
+
+def build_jobs_corpus(jobs, workdir, nshards=16, tag="mix", **kw):
+  """jobs = [[profile, seed, n_bundles], ...] spread over nshards worker processes / shard files."""
+  nshards = max(1, min(nshards, len(jobs)))
+  args = []
+  for i in range(nshards):
+    d = {"jobs": jobs[i::nshards], "out": os.path.join(workdir, "shard-%s-%02d.json" % (tag, i))}
+    d.update(kw)
+    args.append(d)
+  t0 = time.time()
+  run_workers("corpus_worker.py", args)
+  return [a["out"] for a in args], time.time() - t0
